@@ -11,6 +11,7 @@ EXPLANATION = (
     "(R-C16-wake) after appending the will, handle_last_will drains every parked waiter and reschedules it (shared with R-C01-wake); "
     "(R-C16-fields) the Publish / PublishProperties built in handle_last_will take each field from the like-meaning field of the registered will and its properties; "
     "(R-C16-key) the keys agree: every link's Incoming and Outgoing buffers are created with Connection::new(..).client_id (tenant prefix included), and the will table is keyed by those client_id fields; "
+    "RemoteLink::new has no error exit after LinkBuilder::build registered the connection unless Event::Disconnect is sent first; "
     "(R-C16-registry) in broker::remote nothing that can panic runs while the shared will-decider table is locked (region between each MutexGuard's definition and its drop), and the decider a task registers is removed or waited on on every path to the end of the task; "
     "NOT decided: ordering of PublishWill against Disconnect processing in the router channel; delay timing.")
 ASSUMPTIONS = ["rustc MIR construction is correct"]
@@ -27,6 +28,7 @@ def run(ctx):
     ctx.guarded("R-C16-wake", will_wakes_subscribers, ctx, prog)
     ctx.guarded("R-C16-fields", will_fields, ctx, prog)
     ctx.guarded("R-C16-registry", registry, ctx, prog)
+    ctx.guarded("R-C16-fire", registered_then_reported, ctx, prog)
 
 
 def will_wakes_subscribers(ctx, prog):
@@ -337,3 +339,61 @@ def registry(ctx, prog):
                       "a path from registering the connection's will decider to the end of the task neither removes it nor waits on it (the link could not be created: router refused, CONNACK not written): "
                       "the table keeps a sender whose receiver is gone, for the next connection of that client id to signal into",
                       site=body.loc(body.blocks[inserts[0]]["t"].get("sp")), path=path_lines(body, p) if p else None)
+
+
+def registered_then_reported(ctx, prog):
+    """Once LinkBuilder::build has succeeded the router holds the connection (slot, will, session). The constructor
+    of the link must not give up after that without telling the router: nobody else knows the connection id, so the
+    connection would stay registered for ever (its slot taken, its will never published)."""
+    rule = "R-C16-fire"
+    nb = prog.one(r"link::remote::RemoteLink::<P>::new::\{closure#0\}$")
+    builds = [(bb, t) for bb, t in nb.calls() if re.search(r"LinkBuilder::(<[^>]*>::)?build$", callee_path(t)) and not nb.is_cleanup(bb)]
+    if len(builds) != 1:
+        raise AnchorMissing("RemoteLink::new: expected one LinkBuilder::build call, found %d" % len(builds))
+    bbb, bt = builds[0]
+    cont = None
+    for bb, t in nb.calls():
+        if callee_path(t).endswith("Try>::branch") and not nb.is_cleanup(bb):
+            if any(s.kind == "call" and s.bb == bbb for s in flatten_src(provenance(nb, t["args"][0]))):
+                for sw in discr_switches(nb, r"ControlFlow$"):
+                    if sw[4]["l"] == t["dest"]["l"]:
+                        cont = variant_target(sw, "Continue")
+    if cont is None:
+        # no `?`: a match on the Result
+        for sw in discr_switches(nb, r"Result$"):
+            if any(s.kind == "call" and s.bb == bbb for s in flatten_src(provenance(nb, {"m": sw[4]}))):
+                cont = variant_target(sw, "Ok")
+    if cont is None:
+        raise AnchorMissing("RemoteLink::new: the success edge of LinkBuilder::build was not found")
+    errs = []
+    for bi, b in enumerate(nb.blocks):
+        if b.get("cleanup"):
+            continue
+        for st in b["s"]:
+            if "lhs" in st and st["lhs"]["l"] == 0 and not st["lhs"].get("p") and st["rv"]["k"] == "agg" and st["rv"].get("var") == "Err":
+                errs.append((bi, st.get("sp")))
+        t = b["t"]
+        if t["k"] == "call" and callee_path(t).endswith("from_residual") and t["dest"]["l"] == 0:
+            errs.append((bi, t.get("sp")))
+    tells = set()
+    for bb, t in nb.calls():
+        if re.search(r"Sender::<T>::(send|try_send|send_async)$", callee_path(t)) and not nb.is_cleanup(bb):
+            def has_disc(op, d=0):
+                for s in flatten_src(provenance(nb, op)):
+                    if s.kind == "agg":
+                        if s.adt == "router::Event" and s.var == "Disconnect":
+                            return True
+                        if d < 3 and any(has_disc(o, d + 1) for o in s.rv.get("ops", [])):
+                            return True
+                return False
+            if any(has_disc(a) for a in t["args"][1:]):
+                tells.add(bb)
+    after = reachable(nb, [cont], tuple(tells))
+    bad = [(bi, sp) for bi, sp in errs if bi in after]
+    if not bad:
+        ctx.ok(rule, nb.id, "after LinkBuilder::build succeeded RemoteLink::new does not fail without sending Event::Disconnect (%d error exits before registration)" % len(errs), site=nb.loc(bt.get("sp")))
+    for bi, sp in bad:
+        ctx.violation(rule, nb.id, "registered connection abandoned",
+                      "RemoteLink::new returns an error after LinkBuilder::build registered the connection with the router (the CONNACK could not be written) and no Event::Disconnect is sent: "
+                      "broker::remote ends the task without a connection id, the router keeps the connection for ever — its slot stays taken (connection limit) and its will is never published",
+                      site=nb.loc(sp))
